@@ -52,6 +52,10 @@ def run(ctx):
         rows_e = ctx.tlc_genall('Pack_All', 'Pack_AllEq.cfg', timeout=T)
     else:
         rows = ctx.tlc_genall('Pack_All', 'Pack_All.cfg', timeout=4 * T)
+        rows2 = ctx.tlc_genall('Pack_All', 'Pack_All2.cfg', timeout=4 * T)   # two big items (half+half, half+near, ...)
+        for x in rows2:
+            x['id'] = 'c' + x['id'][1:]
+        rows = rows + rows2
         rows_b = ctx.tlc_genall('Pack_All', 'Pack_AllB.cfg', timeout=4 * T)
         rows_e = ctx.tlc_genall('Pack_All', 'Pack_AllE.cfg', timeout=4 * T)
     for i, x in enumerate(rows_b):
